@@ -7,6 +7,8 @@
 From Coq Require Import ZArith QArith List Bool Lia.
 Import ListNotations.
 From Inf Require Import model.RepexM model.MatchM proofs.RepexP proofs.MatchP proofs.SortP.
+From Inf Require spec.PermS model.PermM.
+From Inf Require Import proofs.BridgeMatchP proofs.BridgeFracP proofs.BridgeInfRetisP.
 Open Scope nat_scope.
 
 (* in every state reachable by certified picks, re-issued jobs and completions in any order
@@ -118,6 +120,31 @@ Proof.
   - vm_compute. reflexivity.
   - eexists. eexists. split; vm_compute; reflexivity.
 Qed.
+
+(* ------------------------------------------------------------------ link to property C02
+   (proofs/BridgeMatchP.v, proofs/BridgeInfRetisP.v): a certificate for the pair (i, j) exists exactly
+   when the exact permanent-ratio probability of the pair is positive, and - on the reachable family,
+   where C02 proves that the code's inf_retis returns those ratios - exactly when the P computed by the
+   model of the code is positive there.  [idleQ s] is the idle block of the integer weights read over Q. *)
+Theorem C05_certificate_iff_positive_probability : forall s i j,
+  Wnonneg s -> is_locked s i = false -> is_locked s j = false ->
+  ((exists m, take_cert s m i j = true) <->
+   (0 < PermS.Pspec (nidle s) (idleQ s) (posn i (idle s)) (posn j (idle s)))%Q).
+Proof. exact cert_iff_Pspec_pos. Qed.
+Print Assumptions C05_certificate_iff_positive_probability.
+
+Theorem C05_matchable_iff_perm_positive : forall s, Wnonneg s ->
+  ((exists m, matb s m = true) <-> (0 < PermS.perm (nidle s) (idleQ s))%Q).
+Proof. exact matchable_iff_perm_pos. Qed.
+Print Assumptions C05_matchable_iff_perm_positive.
+
+Theorem C05_code_P_positive_iff_certificate : forall rp s rows b0 lk' P i j,
+  InFamily s rows b0 lk' -> perm_nz s ->
+  PermM.inf_retis rp 1 (WQ s) (locks s) = Some P ->
+  is_locked s i = false -> is_locked s j = false ->
+  ((0 < PermM.mget P i j)%Q <-> exists m, take_cert s m i j = true).
+Proof. exact infretis_pos_iff_cert. Qed.
+Print Assumptions C05_code_P_positive_iff_certificate.
 
 Example C05_example_init : matb (core ex5) [0;1;2;0] = true.
 Proof. vm_compute. reflexivity. Qed.
